@@ -295,6 +295,48 @@ def enum_base_alias_scenario(ctx, home):
     shutil.rmtree(root, ignore_errors=True)
 
 
+def zero_extent_scenario(ctx, home):
+    """containers with a fixed extent of zero - a fixed vector of length 0, a fixed array with a dimension of length 0 - against the same model with the
+    extent left open: nothing is written for the former, a count / the dimensions for the latter, so the schemas must differ; and a zero extent is
+    not the same as an extent of one"""
+    u8, f32t = P("uint8"), P("float32")
+
+    def mk(vec, arr):
+        return Pkg("Zx", [Rec("Frame", [("pad", vec), ("grid", arr), ("gain", f32t)]), Proto("Frames", [("first", N("Frame")), ("more", S(N("Frame"))), ("tail", vec)])])
+    variants = {"fixed-0": (mk(V(u8, 0), A(f32t, ((None, 0), (None, 2)))), [[[], ((0, 2), []), 1.5], [[[], ((0, 2), []), 2.0]], []]),
+                "open": (mk(V(u8), A(f32t, 2)), [[[], ((0, 2), []), 1.5], [[[], ((0, 2), []), 2.0]], []]),
+                "fixed-1": (mk(V(u8, 1), A(f32t, ((None, 1), (None, 2)))), None),
+                "vector-open-array-fixed-0": (mk(V(u8), A(f32t, ((None, 0), (None, 2)))), [[[], ((0, 2), []), 1.5], [[[], ((0, 2), []), 2.0]], []]),
+                "vector-fixed-0-array-open": (mk(V(u8, 0), A(f32t, 2)), [[[], ((0, 2), []), 1.5], [[[], ((0, 2), []), 2.0]], []])}
+    root = os.path.join(ctx.workdir, "cases", "zeroextent")
+    got, enc = {}, {}
+    from vlib.refcodec import f32
+    for name, (pkg, vals) in variants.items():
+        s1, p1 = schemas_of(os.path.join(root, name), pkg, files_for(pkg), home)
+        ctx.ev()
+        ctx.case(("zero-extent", name))
+        ctx.count("zero-extent")
+        if s1 is None:
+            ctx.violation("generate-failed", "zero-extent scenario %s rejected: %s" % (name, cli.clean(p1.stderr)[:300]), {"case_dir": root})
+            return
+        got[name] = s1["Frames"]
+        if len(set(got[name].values())) != 1:
+            ctx.violation("schema-differs-between-targets:zero-extent", "zero-extent model %s: C++ / Python / MATLAB embed different schema texts" % name, {"case_dir": root})
+        if vals is not None:
+            fix = lambda fr: [fr[0], fr[1], f32(fr[2])]
+            vv = [fix(vals[0]), [fix(x) for x in vals[1]], vals[2]]
+            enc[name] = Codec(pkg).encode_stream(pkg.find("Frames"), "{}", vv)
+    names = sorted(got)
+    for i, a in enumerate(names):
+        for b in names[i + 1:]:
+            differs = enc.get(a) != enc.get(b) if a in enc and b in enc else True
+            if differs and got[a].get("py") == got[b].get("py"):
+                ctx.violation("encoding-changed-schema-same:zero-extent", "models %s and %s encode the same (empty) values differently (%s vs %s) but carry the same schema text" % (
+                    a, b, enc.get(a, b"").hex()[-24:], enc.get(b, b"").hex()[-24:]), {"case_dir": root})
+    if not ctx.violations:
+        shutil.rmtree(root, ignore_errors=True)
+
+
 def two_writers_one_process_scenario(ctx, home):
     """one process writes streams of two different protocols one after the other (C++, binary and NDJSON): each stream must start with its own schema"""
     pkg = Pkg("TwoW", [Rec("Cal", [("gain", P("float32")), ("name", P("string"))]),
@@ -639,6 +681,7 @@ def run(ctx):
         ctx.sample(s)
     same_name_scenario(ctx, home)
     enum_base_alias_scenario(ctx, home)
+    zero_extent_scenario(ctx, home)
     two_writers_one_process_scenario(ctx, home)
     text_scenarios(ctx, home)
 
